@@ -19,6 +19,7 @@ import (
 	"github.com/gotid/god/lib/store/cache"
 	"github.com/gotid/god/lib/store/redis"
 	"github.com/gotid/god/lib/store/sqlx"
+	"github.com/gotid/god/lib/syncx"
 )
 
 type ccRow struct {
@@ -74,11 +75,16 @@ type ccSys struct {
 	exp   map[string]time.Duration
 }
 
+var ccBigID = map[int]int{0: 0, 1: 10000001, 2: 9007199254740993}
+
 func pkKey(id any) string       { return fmt.Sprintf("pk:%v", id) }
 func idxKey(name string) string { return "idx:" + name }
 func nameOf(id int) string      { return fmt.Sprintf("n%d", id) }
 
 func newCcSys(r *vrt.Run) *ccSys {
+	// the package keeps one process-wide single-flight group: an execution that is cut off
+	// mid-flight (pruned schedule) must not leave a dangling call for the next one
+	singleFlights = syncx.NewSingleFlight()
 	s := &ccSys{r: r, s: ccServer(), db: map[int]*ccRow{}, cache: map[string]string{}, exp: map[string]time.Duration{}}
 	vrt.SetRandHook(func() (int64, bool) {
 		pcs := make([]uintptr, 10)
@@ -98,6 +104,9 @@ func newCcSys(r *vrt.Run) *ccSys {
 		}
 		return 0, false
 	})
+	// the shared client for this address is created here, sequentially (its manager is
+	// process-wide too)
+	redis.New(s.s.Addr()).Ping()
 	s.cc = NewNodeConn(nil, redis.New(s.s.Addr()), cache.WithExpire(100*time.Second), cache.WithNotFoundExpire(10*time.Second))
 	return s
 }
@@ -322,6 +331,9 @@ func (s *ccSys) apply(op string) bool {
 	id := 0
 	if len(f) > 1 {
 		fmt.Sscan(f[1], &id)
+		// primary keys of realistic magnitude: beyond 10^6 (where %v of a float64 switches
+		// to exponent form) and beyond 2^53 (where a float64 loses integers)
+		id = ccBigID[id]
 	}
 	switch f[0] {
 	case "q":
@@ -435,6 +447,102 @@ func TestVerifCachedConn(t *testing.T) {
 				}
 			}
 			return vrt.Step{Canon: s.canon()}
+		})
+	}
+}
+
+// Concurrent QueryRowIndex readers of one uncached index key (the single-flight followers
+// take a different decoding path than the leader): every reader gets the current row, the
+// database sees at most one index query and one primary query at a time, and after a write
+// the next batch of readers gets the new row.
+func TestVerifCachedConnStampede(t *testing.T) {
+	defer vrt.WriteReport()
+	logx.Disable()
+	stat.SetReporter(nil)
+	bound := 2
+	if vrt.Thorough() {
+		bound = 3
+	}
+	for i, readers := range []int{2, 3} {
+		if !vrt.Shard(40 + i) {
+			continue
+		}
+		readers := readers
+		vrt.Explore(vrt.Options{Name: fmt.Sprintf("cachedconn/index-stampede/readers=%d", readers), Bound: bound, Horizon: 1 << 30, Prune: true, Budget: vrt.FairBudget(2)}, func(r *vrt.Run) {
+			s := newCcSys(r)
+			const id = 9007199254740993
+			row := &ccRow{id, nameOf(id), "p1"}
+			running, maxRunning, queries := 0, 0, 0
+			enter := func() func() {
+				vrt.Obs()
+				queries++
+				running++
+				if running > maxRunning {
+					maxRunning = running
+				}
+				vrt.Yield()
+				return func() { vrt.Obs(); running-- }
+			}
+			read := func() string {
+				var v ccRow
+				err := s.cc.QueryRowIndex(&v, idxKey(row.Name), func(primary any) string { return pkKey(primary) },
+					func(conn sqlx.Conn, out any) (any, error) {
+						defer enter()()
+						*out.(*ccRow) = *row
+						return row.ID, nil
+					},
+					func(conn sqlx.Conn, out, primary any) error {
+						defer enter()()
+						if fmt.Sprint(primary) != fmt.Sprint(row.ID) {
+							return sql.ErrNoRows
+						}
+						*out.(*ccRow) = *row
+						return nil
+					})
+				return rowString(v, err)
+			}
+			batch := func(label string) {
+				var wg sync.WaitGroup
+				var mu sync.Mutex
+				var got []string
+				for i := 0; i < readers; i++ {
+					wg.Add(1)
+					go func() {
+						defer wg.Done()
+						g := read()
+						mu.Lock()
+						got = append(got, g)
+						mu.Unlock()
+					}()
+				}
+				wg.Wait()
+				vrt.Obs()
+				want := fmt.Sprintf("%d/%s/%s", row.ID, row.Name, row.Payload)
+				for _, g := range got {
+					if g != want {
+						r.Failf("%s: a reader got %s, the database holds %s (all readers: %v)", label, g, want, got)
+						break
+					}
+				}
+			}
+			batch("first batch")
+			if maxRunning > 1 {
+				r.Failf("first batch: %d database queries ran at the same time for one key", maxRunning)
+			}
+			q1 := queries
+			// a completed write through the cached connection, naming the affected keys
+			row = &ccRow{id, row.Name, "p2"}
+			if _, err := s.cc.Exec(func(conn sqlx.Conn) (sql.Result, error) { return nil, nil }, pkKey(id), idxKey(row.Name)); err != nil {
+				r.Failf("Exec: %v", err)
+			}
+			batch("batch after the write")
+			r.Outcome("queries=%d+%d", q1, queries-q1)
+			// nothing may be left in the cache under a key the write path does not know
+			for _, k := range s.s.Keys() {
+				if k != pkKey(id) && k != idxKey(row.Name) {
+					r.Failf("cache holds an entry under %q, which no write ever invalidates", k)
+				}
+			}
 		})
 	}
 }
